@@ -32,7 +32,7 @@ def run(chk):
         kind = ("sort", "batchsort", "visual", "sort")[i % 4]
         metric = "maha" if i % 3 == 2 else "iou"
         # non-default Kalman weights in some Mahalanobis runs: the gate must use the configured filter
-        wts = [("--pos-w", "0.1", "--vel-w", "0.0125"), ("--pos-w", "0.025", "--vel-w", "0.00625"), ()][i % 3] if metric == "maha" and i % 2 == 0 else ()
+        wts = [("--pos-w", "0.1", "--vel-w", "0.0125", "--jump", "1"), ("--pos-w", "0.025", "--vel-w", "0.00625", "--jump", "1"), ()][(i // 3) % 3] if metric == "maha" else ()
         t = r2.record(chk, f"r2-{i}", kind, chk.seed * 1000 + i, steps=150 if quick else 300, shards=1 + i % 3, metric=metric,
                       objects=3 + i % 3, spread=(60, 90, 140)[i % 3], extra=list(wts))
         s = r2.trace_stats(t)
